@@ -116,9 +116,10 @@ const (
 	kSoft
 	kMixed
 	kNamed
+	kNested // dependencies declared in a parameter object nested in another one
 )
 
-var c05KindNames = []string{"plain", "optional", "object", "group", "soft-group", "mixed", "named"}
+var c05KindNames = []string{"plain", "optional", "object", "group", "soft-group", "mixed", "named", "nested-object"}
 
 type c05Program struct {
 	n       int
@@ -171,6 +172,9 @@ func (p *c05Program) specs() []*uFunc {
 			}
 		}
 		if len(fields) > 0 {
+			if p.kind == kNested {
+				fields = []u.Param{{Kind: u.PObject, Fields: fields}}
+			}
 			f.Params = append(f.Params, u.Param{Kind: u.PObject, Fields: fields})
 		}
 		f.Results = []u.Result{{Kind: u.RSingle, Type: c05Types[i]}}
@@ -541,7 +545,7 @@ func c05Space1(tier string) *c05Space {
 	}
 	all5 := []int{0, 1, 2, 3, 4}
 	kindsQ := []c05Kind{kPlain, kOptional, kGroup, kSoft, kMixed}
-	kindsT := []c05Kind{kPlain, kOptional, kObject, kGroup, kSoft, kMixed, kNamed}
+	kindsT := []c05Kind{kPlain, kOptional, kObject, kGroup, kSoft, kMixed, kNamed, kNested}
 	// self-loops and 2-cycles with every placement
 	add(1, [][][]int{{{0}}}, kindsT, []int{0}, placements(1, all5), perms(1), []int{0, 1})
 	add(2, [][][]int{{{1}, {0}}, {{1}, {}}, {{0, 1}, {}}, {{1}, {1}}}, kindsT, []int{0, 1}, placements(2, all5), perms(2), []int{0, 1})
@@ -549,6 +553,8 @@ func c05Space1(tier string) *c05Space {
 		// every digraph on 3 keys: plain/optional/group/mixed; every placement; every order; both scope timings
 		add(3, offDiagonalGraphs(3), kindsQ, []int{1}, placements(3, all5), perms(3), []int{0, 1})
 		add(3, offDiagonalGraphs(3), []c05Kind{kPlain, kGroup}, []int{0}, placements(3, all5), perms(3), []int{0})
+		// nested parameter objects, named values: every digraph on 3 keys in the root and one child
+		add(3, offDiagonalGraphs(3), []c05Kind{kNested, kNamed}, []int{0}, placements(3, []int{0, 1, 2}), perms(3), []int{0})
 		// rings and rings + one chord on 4 keys, plain edges, every placement, some orders
 		g4 := [][][]int{ring(4), ring(4, [2]int{0, 2}), ring(4, [2]int{2, 0}), ring(4, [2]int{1, 3})}
 		add(4, g4, []c05Kind{kPlain}, []int{1}, placements(4, all5), [][]int{{0, 1, 2, 3}, {3, 2, 1, 0}, {1, 3, 0, 2}}, []int{0})
@@ -727,6 +733,7 @@ func c05Units(tier string) []Unit {
 	if !explore.IsWorker {
 		n = len(risky())
 	}
+	units = append(units, c05HistoryUnits(tier)...)
 	units = append(units, Unit{En: &explore.Enum{Name: "invokes-through-cross-view-cycles", N: n, Run: c05RiskyItem(progs, risky),
 		Describe: func(i int) string {
 			rk := risky()[i]
@@ -734,5 +741,72 @@ func c05Units(tier string) []Unit {
 			p.specs()
 			return fmt.Sprintf("class=cross-view-runtime-cycle defer=%v invoke %s from s%d after %s", rk.deferred, c05Types[rk.key], rk.s, p)
 		}}})
+	return units
+}
+
+// ---- history units: registrations interleaved with invocations (a scope that
+// was verified once, then gets a cycle), and registrations made from inside a
+// running Invoke.
+
+func c05Monitor(c *Ctx) []Violation {
+	st := c.Step
+	var vs []Violation
+	switch st.Op.Kind {
+	case h.OpProvide:
+		if st.Op.Fn != nil {
+			vs = append(vs, provideCycleRule("C05", st.Model, st, c.Sc.Cfg.Defer, c.Hit)...)
+		}
+	case h.OpInvoke:
+		if st.Op.Fn != nil {
+			vs = append(vs, invokeCycleRule("C05", c.Run, st, c.Hit)...)
+		}
+		// registrations made by the invoked function itself are judged like any other
+		for _, n := range c.Run.Steps {
+			if n != st && n.LogFrom >= st.LogFrom && n.LogFrom <= st.LogTo && n.Op.Kind == h.OpProvide && n.Op.Fn != nil && len(c.Run.Steps) > 0 && isNestedOf(st, n) {
+				vs = append(vs, provideCycleRule("C05", n.Model, n, c.Sc.Cfg.Defer, c.Hit)...)
+			}
+		}
+	}
+	return vs
+}
+
+func isNestedOf(outer, n *h.Step) bool {
+	for _, o := range outer.Op.Nested {
+		if o.Fn == n.Op.Fn && o.Scope == n.Op.Scope && o.Kind == n.Op.Kind {
+			return true
+		}
+	}
+	return false
+}
+
+var i0 = u.F("i0", "", "") // an invoked function without parameters
+
+func c05HistoryUnits(tier string) []Unit {
+	q := quick(tier)
+	var units []Unit
+	d, b := 5, explore.Budget{Provides: 3, Invokes: 2, Rejected: 1}
+	if !q {
+		d, b = 7, explore.Budget{Provides: 4, Invokes: 3, Rejected: 2}
+	}
+	for _, def := range []bool{false, true} {
+		// 1. Provide / Invoke interleavings over ring pieces in two scopes with Export
+		a := alpha{scopes: []int{0, 1}, ctors: []*uFunc{rAB, pB, rBC, rCA, rAoB}, export: true, invokes: []*uFunc{iA, iB, i0}}
+		units = append(units, Unit{Sc: &Scenario{Name: fmt.Sprintf("histories/ring/defer=%v", def), Cfg: h.Config{Defer: def}, Prefix: prefixChild,
+			Alphabet: a.ops(), Depth: d, Budget: b, Allowed: onceEach, Monitors: []explore.Monitor{c05Monitor}}})
+		// 2. the same pieces registered from inside a running Invoke
+		var ops []Op
+		pieces := []*uFunc{rAB, pB, pDd}
+		for _, f := range pieces {
+			for _, s := range []int{0, 1} {
+				ops = append(ops, provide(s, f))
+				for _, from := range []int{0, 1} {
+					ops = append(ops, Op{Kind: h.OpInvoke, Scope: from, Fn: i0, Nested: []Op{provide(s, f)}})
+				}
+			}
+		}
+		ops = append(ops, invoke(0, iA), invoke(1, iA), invoke(0, iB))
+		units = append(units, Unit{Sc: &Scenario{Name: fmt.Sprintf("histories/provide-during-invoke/defer=%v", def), Cfg: h.Config{Defer: def}, Prefix: prefixChild,
+			Alphabet: ops, Depth: d, Budget: explore.Budget{Provides: 3, Invokes: 3, Rejected: 1}, Monitors: []explore.Monitor{c05Monitor}}})
+	}
 	return units
 }
